@@ -456,22 +456,28 @@ def _merge_masks(
     idx_values.sort()
 
     indices_dtype = choose_int_dtype((0, max(n_indices, n_genes)))
+    if n_indices > 0:
+        storage_kwargs = {
+            'chunks': (min(n_indices, 1000000),),
+            'compression': compression,
+            'compression_opts': compression_opts}
+    else:
+        # no (pair, gene) combination passed at all;
+        # an empty dataset cannot be chunked
+        storage_kwargs = dict()
+
     with h5py.File(dst_path, 'a') as dst:
         dst_indices = dst.create_dataset(
             'indices',
             shape=(n_indices,),
             dtype=indices_dtype,
-            chunks=(min(n_indices, 1000000),),
-            compression=compression,
-            compression_opts=compression_opts)
+            **storage_kwargs)
 
         dst_data = dst.create_dataset(
             'data',
             shape=(n_indices,),
             dtype=data_dtype,
-            chunks=(min(n_indices, 1000000),),
-            compression=compression,
-            compression_opts=compression_opts)
+            **storage_kwargs)
 
         dst_indptr = dst.create_dataset(
             'indptr',
